@@ -97,6 +97,24 @@ def Rx.run2 (A1 A2 : Aead) (r : Rx) (cs1 cs2 : List Bytes) : Rx × Bytes × Byte
   let (r2, o2) := Rx.run A2 r1.rekey cs2
   (r2, o1, o2)
 
+/-- Several secured connections served by one process. Every `HAPServerProtocol` owns its `HAPCrypto`
+    (buffer, counter, ciphers are instance attributes created in `__init__`), so a read on connection
+    `i` touches the receive state of connection `i` only. A schedule is a list of (connection, read). -/
+def Pool := Nat → Rx
+
+def Pool.set (p : Pool) (i : Nat) (r : Rx) : Pool := fun j => if j = i then r else p j
+
+/-- runs a schedule; returns the final pool and, per step, (connection, bytes handed to ITS HTTP layer) -/
+def Pool.run (A : Nat → Aead) : Pool → List (Nat × Bytes) → Pool × List (Nat × Bytes)
+  | p, [] => (p, [])
+  | p, (i, c) :: s =>
+    let (r, o) := (p i).recv (A i) c
+    let (p', os) := Pool.run A (p.set i r) s
+    (p', (i, o) :: os)
+
+/-- the reads (or outputs) of one connection within a schedule -/
+def proj (i : Nat) (s : List (Nat × Bytes)) : List Bytes := (s.filter (fun x => x.1 == i)).map (·.2)
+
 /-- per-read outputs (what each `data_received` call handed over) -/
 def Rx.trace (A : Aead) : Rx → List Bytes → List Bytes
   | _, [] => []
